@@ -145,16 +145,20 @@ def ob_compression_case(nbytes, mode='rt', second=None):
     def call_method(obj, name, args, kwargs):
         if isinstance(obj, FileM):
             if name == 'read':
-                n = args[0]
+                n = args[0] if args else len(obj.head.cells)
                 lo = obj.pos
                 obj.pos = min(lo + n, len(obj.head.cells))
+                if not args:
+                    return Tag('whole-file-content', obj)
                 return SymSeq(obj.head.cells[lo:lo + n], C_UCHAR, 'bytes')
             if name == 'seek':
                 obj.pos = args[0]
                 return args[0]
-            if name == 'close':
+            if name in ('close', '__exit__'):
                 obj.closed = lor(obj.closed, ip.active())
                 return None
+            if name == '__enter__':
+                return obj
         return orig_call_method(obj, name, args, kwargs)
 
     def call(fn, args, kwargs):
@@ -164,6 +168,10 @@ def ob_compression_case(nbytes, mode='rt', second=None):
             return Tag('gzip', kwargs.get('fileobj'))
         if isinstance(fn, I.External) and (fn.attr or '').endswith('TextIOWrapper'):
             return Tag('text', args[0])
+        if isinstance(fn, I.External) and fn.mod in ('zlib', 'io', 'gzip', 'bz2', 'lzma', 'codecs', 'shutil', 'tempfile'):
+            # any other decoder / buffer: recorded as such; the oracle only accepts the streaming multi-member gzip reader
+            src = args[0] if args else next(iter(kwargs.values()), None)
+            return Tag(f'{fn.mod}.{fn.attr}', src)
         return orig_call(fn, args, kwargs)
     M.getattr, M.call_method, M.call = getattr_, call_method, call
     g = ks.call(ks.lookup('gambit.util.io', 'guess_compression'), FileM(head))
@@ -178,6 +186,8 @@ def ob_compression_case(nbytes, mode='rt', second=None):
             continue
         for c, chain, base in unwrap(o.ret):
             has_gz = 'gzip' in chain
+            # accepted shapes: the raw file, or gzip.GzipFile on it (which reads every member of a multi-member file),
+            # each optionally under a text wrapper; any other decoder is not known to honour that contract
             shape_ok = chain in (['text', 'gzip'], ['text']) if mode[1] == 't' else chain in (['gzip'], [])
             viols.append(land(c, lor(not shape_ok, base is not fobj, is_gz != has_gz)))
             samples.append({'path': path, 'wrappers': chain})
@@ -234,6 +244,18 @@ def replay(cex):
                     bad.append((name, type(f).__name__, want))
                 if f is not None:
                     f.close()
+            # the decoder chosen for gzip content must read every member of a multi-member file (cat a.gz b.gz, bgzip)
+            p = os.path.join(d, 'multi.fasta')
+            parts = [b'>c1\nACGT\n', b'>c2\nTTGA\n', b'>c3\nGGCC\n']
+            open(p, 'wb').write(b''.join(gzip.compress(x) for x in parts))
+            f = gio._open_auto(p, 'rb')
+            try:
+                got = f.read() if f is not None else None
+            finally:
+                if f is not None:
+                    f.close()
+            if got != b''.join(parts):
+                bad.append(('multi-member gzip', got, b''.join(parts)))
         finally:
             import shutil
             shutil.rmtree(d, ignore_errors=True)
